@@ -70,7 +70,21 @@ def directed(prop, world, quick):
                           {"op": "chat", "c": 4, "chat": 1, "msg": [106], "emote": True}, {"op": "leave", "c": 4, "chat": 1},
                           {"op": "chat", "c": 1, "chat": 1, "msg": [107], "emote": False}]
                 out.append({"world": world, "steps": steps})
+    if prop == "C12":
+        # the same user joins the same chat twice (two invitations accepted), talks, leaves once, and again
+        steps = [connect(1), login(1, "adm", [1]), connect(2, "10.2.2.2"), login(2), connect(3, "10.1.1.12"), login(3, "mod", [3]),
+                 {"op": "invitenew", "c": 1, "target": 2}, {"op": "join", "c": 2, "chat": 1}, {"op": "invite", "c": 1, "chat": 1, "target": 2},
+                 {"op": "join", "c": 2, "chat": 1}, {"op": "chat", "c": 1, "chat": 1, "msg": [104], "emote": False},
+                 {"op": "subject", "c": 1, "chat": 1, "subject": [83]}, {"op": "join", "c": 3, "chat": 1},
+                 {"op": "leave", "c": 2, "chat": 1}, {"op": "chat", "c": 1, "chat": 1, "msg": [105], "emote": True},
+                 {"op": "leave", "c": 2, "chat": 1}, {"op": "chat", "c": 3, "chat": 1, "msg": [106], "emote": False}]
+        out.append({"world": world, "steps": steps})
     if prop == "C04":
+        # the bitwise complement of the right password field (the clear password where the obfuscated one belongs)
+        for who, pw in (("adm", [1]), ("mute", [2])):
+            comp = [255 - b for b in pw]
+            steps = [connect(1), login(1, who, comp), connect(2), login(2, who, comp, flow="new"), connect(3), login(3, who, pw)]
+            out.append({"world": world, "steps": steps})
         # k failed attempts from one address, then a valid login from the same address and from another one
         for k in (1, 3, 5, 6, 9):
             steps, c = [], 0
